@@ -431,6 +431,9 @@ IsExplicit(op) == op.k = "U" /\ op.p = "modified" /\ op.v # "now"
 ModifiedOnce ==
   /\ Cardinality({i \in DOMAIN ops : IsAuto(ops[i])}) <= 1
   /\ \A i, j \in DOMAIN ops : (IsExplicit(ops[i]) /\ IsAuto(ops[j])) => j < i
+  \* never when set explicitly: such a call records the explicit update and nothing else
+  /\ (last.f = "set_modified" \/ (last.f \in {"set_value","set_timestamp"} /\ last.k = "modified"))
+       => (Len(ops) = prev.n + 1 /\ ~\E i \in (prev.n + 1)..Len(ops) : IsAuto(ops[i]))
   \* a Task mutator that changed something left a refreshed or explicitly set modified behind
   /\ (last.f \in TaskMutators /\ last.res = "ok" /\ Len(ops) > prev.n /\ ob.kind = "task")
        => \E i \in DOMAIN ops : ops[i].k = "U" /\ ops[i].p = "modified"
